@@ -479,4 +479,12 @@ def case_st(draw):
 
 
 def parts():
-    return [Part("compositions", check, strategy=case_st(), budget={"quick": 5000, "thorough": 120000}, fuzz={"thorough": 10000})]
+    from . import c06
+
+    return [
+        Part("compositions", check, strategy=case_st(), budget={"quick": 5000, "thorough": 120000}, fuzz={"thorough": 10000}),
+        # metadata derived by transfer-rule lists (input-to-output, output-to-input, values): after connect both ends of
+        # every link carry exactly what their declarations / rules give and the initial pulls are converted accordingly
+        # (check shared with C06, whose statement covers the rules' dependencies)
+        Part("rule_lists", c06.check_rules, strategy=c06.rules_case(), budget={"quick": 600, "thorough": 15000}),
+    ]
